@@ -665,9 +665,25 @@ impl<'a, F: EvalComptimeFn> InferenceCtx<'a, F> {
                     // will cause lots of incorrect circular definition errors.
                     // It seems to be because the cyclic globals need to be run
                     // before the cyclic lambdas are run.
+                    //
+                    // Among the globals, the ones whose value is a function come first:
+                    // they get their signature from the function's header alone, and the
+                    // other globals of the round may call them (`c :: comptime { f(3) };`
+                    // must not depend on whether `f` is defined before or after `c`).
+                    let is_function = |global: &ConcreteGlobalLoc| {
+                        let fqn = global.to_naive();
+
+                        self.world_bodies[fqn.file]
+                            .try_global_body(fqn.name)
+                            .is_some_and(|body| {
+                                matches!(self.world_bodies[fqn.file][body], hir::Expr::Lambda(_))
+                            })
+                    };
                     cyclic.sort_by(|left, right| match (left, right) {
                         (ConcreteLoc::Global(l_global), ConcreteLoc::Global(r_global)) => {
-                            l_global.cmp(r_global)
+                            is_function(r_global)
+                                .cmp(&is_function(l_global))
+                                .then_with(|| l_global.cmp(r_global))
                         }
                         (ConcreteLoc::Lambda(l_lambda), ConcreteLoc::Lambda(r_lambda)) => {
                             l_lambda.cmp(r_lambda)
